@@ -64,6 +64,9 @@ pub enum TOp {
     CloneRename { tree: usize },
     /// `Node::eval()` of a shared tree (implicit fresh context)
     EvalImplicit { tree: usize },
+    /// build a context on this thread (function table chosen by `variant`) and keep it; after the
+    /// run all contexts built by all threads are moved to the main thread and probed there
+    BuildContext { variant: usize },
 }
 
 impl TOp {
@@ -86,6 +89,7 @@ impl TOp {
             TOp::FreshScript { programs } => Json::obj().with("op", Json::s("fresh_script")).with("programs", progs(programs)),
             TOp::CloneRename { tree } => Json::obj().with("op", Json::s("clone_rename")).with("tree", Json::u(*tree as u64)),
             TOp::EvalImplicit { tree } => Json::obj().with("op", Json::s("eval_implicit")).with("tree", Json::u(*tree as u64)),
+            TOp::BuildContext { variant } => Json::obj().with("op", Json::s("build_context")).with("variant", Json::u(*variant as u64)),
         }
     }
 
@@ -110,6 +114,7 @@ impl TOp {
             "fresh_script" => TOp::FreshScript { programs: progs(j)? },
             "clone_rename" => TOp::CloneRename { tree: j.u64_field("tree")? as usize },
             "eval_implicit" => TOp::EvalImplicit { tree: j.u64_field("tree")? as usize },
+            "build_context" => TOp::BuildContext { variant: j.u64_field("variant")? as usize },
             other => return Err(format!("unknown thread op {}", other)),
         })
     }
@@ -443,7 +448,64 @@ fn exec_inner(op: &TOp, sh: &Shared) -> String {
             };
             cr(&t.eval())
         },
+        TOp::BuildContext { variant } => {
+            let ctx = build_variant_context(*variant);
+            let s = snapshot(&ctx);
+            BUILT.with(|b| b.borrow_mut().push(ctx));
+            s
+        },
     }
+}
+
+thread_local! {
+    /// contexts built on this thread by `BuildContext`
+    static BUILT: std::cell::RefCell<Vec<Ctx>> = const { std::cell::RefCell::new(Vec::new()) };
+}
+
+pub fn take_built() -> Vec<Ctx> {
+    BUILT.with(|b| std::mem::take(&mut *b.borrow_mut()))
+}
+
+const VARIANT_FNS: [&str; 6] = ["f", "g", "h", "len", "str::from", "max"];
+
+/// Every variant runs the same setup routine (same number of `set_function` calls) but registers
+/// a different set of names, so that tables built on different threads differ in content only.
+fn build_variant_context(variant: usize) -> Ctx {
+    let mut ctx = Ctx::new();
+    for i in 0..3 {
+        let name = VARIANT_FNS[(variant + 2 * i) % VARIANT_FNS.len()];
+        let behaviour: &'static str = ["k", "g", "f"][i];
+        let _ = ctx.set_function(
+            name.to_string(),
+            Function::new(move |arg: &V| Ok(sentinel(behaviour, arg))),
+        );
+    }
+    let _ = ctx.set_value("a".to_string(), Value::Int(variant as i64));
+    ctx
+}
+
+/// Probes all contexts name-major (the same name on every context in turn, then the next name):
+/// function lookups through `call_function` and through a one-call tree.
+pub fn probe_contexts(all: &[Ctx]) -> Vec<String> {
+    let mut out = Vec::new();
+    let arg = Value::Tuple(vec![Value::Int(2), Value::Int(5)]);
+    for name in VARIANT_FNS.iter().chain(["typeof", "nofn"].iter()) {
+        let tree = verifsim::prog::Expr::Call(
+            name.to_string(),
+            Some(Box::new(verifsim::prog::Expr::Lit(arg.clone()))),
+        )
+        .assemble(true);
+        for (i, ctx) in all.iter().enumerate() {
+            out.push(format!(
+                "ctx{} {} call_function={} eval={}",
+                i,
+                name,
+                cr(&ctx.call_function(name, &arg)),
+                cr(&tree.eval_with_context(ctx))
+            ));
+        }
+    }
+    out
 }
 
 pub fn shared_fingerprint(sh: &Shared) -> String {
@@ -459,10 +521,27 @@ pub fn shared_fingerprint(sh: &Shared) -> String {
 
 /// Sequential baseline: each thread's list executed alone.
 pub fn sequential(w: &Workload, sh: &Shared) -> Vec<Vec<String>> {
-    w.threads
+    let _ = take_built();
+    let r = w
+        .threads
         .iter()
         .map(|ops| ops.iter().map(|o| exec(o, sh)).collect())
-        .collect()
+        .collect();
+    let _ = take_built();
+    r
+}
+
+/// Sequential baseline that also returns the probe results of the contexts built on the way.
+pub fn sequential_with_contexts(w: &Workload, sh: &Shared) -> (Vec<Vec<String>>, Vec<String>) {
+    let _ = take_built();
+    let mut all: Vec<Ctx> = Vec::new();
+    let mut results = Vec::new();
+    for ops in &w.threads {
+        results.push(ops.iter().map(|o| exec(o, sh)).collect());
+        all.extend(take_built());
+    }
+    let probes = probe_contexts(&all);
+    (results, probes)
 }
 
 #[derive(Clone, Debug, PartialEq)]
@@ -482,12 +561,14 @@ pub struct RunOutcome {
 /// One complete simulation of a workload under a scheduler configuration.
 pub fn run(w: &Workload, cfg: sched::SimConfig) -> Result<RunOutcome, String> {
     let sh = Arc::new(build_shared(w)?);
-    let expected = if w.fresh {
+    let (expected, expected_probes) = if w.fresh {
         let reference = build_shared(w)?;
-        sequential(w, &reference)
+        sequential_with_contexts(w, &reference)
     } else {
-        sequential(w, &sh)
+        sequential_with_contexts(w, &sh)
     };
+    let built: Arc<Vec<std::sync::Mutex<Vec<Ctx>>>> =
+        Arc::new((0..w.threads.len()).map(|_| std::sync::Mutex::new(Vec::new())).collect());
     let before = shared_fingerprint(&sh);
     let n = w.threads.len();
     let results: Vec<std::sync::Mutex<Vec<String>>> = (0..n).map(|_| std::sync::Mutex::new(Vec::new())).collect();
@@ -497,11 +578,15 @@ pub fn run(w: &Workload, cfg: sched::SimConfig) -> Result<RunOutcome, String> {
         let sh = sh.clone();
         let ops = ops.clone();
         let results = results.clone();
+        let built = built.clone();
         bodies.push(Box::new(move || {
+            let _ = take_built();
             for op in &ops {
                 let r = exec(op, &sh);
                 results[i].lock().unwrap().push(r);
             }
+            // hand the contexts built on this thread over to the main thread
+            *built[i].lock().unwrap() = take_built();
         }));
     }
     let report = sched::simulate(cfg, bodies);
@@ -543,6 +628,30 @@ pub fn run(w: &Workload, cfg: sched::SimConfig) -> Result<RunOutcome, String> {
                     break 'outer;
                 }
             }
+        }
+    }
+    if finding.is_none() {
+        // contexts built on the simulated threads, moved to the main thread, probed name-major
+        let mut all: Vec<Ctx> = Vec::new();
+        for b in built.iter() {
+            all.extend(std::mem::take(&mut *b.lock().unwrap()));
+        }
+        let probes = probe_contexts(&all);
+        if probes != expected_probes {
+            let (k, e, a) = expected_probes
+                .iter()
+                .zip(probes.iter())
+                .enumerate()
+                .find(|(_, (e, a))| e != a)
+                .map(|(k, (e, a))| (k, e.clone(), a.clone()))
+                .unwrap_or((0, format!("{} probes", expected_probes.len()), format!("{} probes", probes.len())));
+            finding = Some(CFinding {
+                class: "contexts-built-on-other-threads-differ".into(),
+                thread: 0,
+                op: k,
+                expected: e,
+                actual: a,
+            });
         }
     }
     if finding.is_none() {
@@ -709,7 +818,12 @@ pub fn miri_scenario(seed: u64) -> i32 {
             return 0;
         },
     };
-    let expected = sequential(&w, &reference);
+    // Every Miri run is a fresh (interpreted) process. In the odd families the concurrent phase
+    // comes FIRST, so that the library's very first use in the process is the concurrent one
+    // (lazily initialised process-global state); the sequential baseline is computed afterwards
+    // on the independent copy.
+    let cold_first = seed % 2 == 1;
+    let mut expected = if cold_first { Vec::new() } else { sequential(&w, &reference) };
     let sh = match build_shared(&w) {
         Ok(s) => Arc::new(s),
         Err(_) => return 0,
@@ -725,6 +839,9 @@ pub fn miri_scenario(seed: u64) -> i32 {
             results.push(h.join().unwrap_or_else(|_| vec!["PANIC".to_string()]));
         }
     });
+    if cold_first {
+        expected = sequential(&w, &reference);
+    }
     for t in 0..w.threads.len() {
         for k in 0..expected[t].len() {
             if results[t].get(k) != Some(&expected[t][k]) {
@@ -851,7 +968,13 @@ pub fn gen_workload_sized(rng: &mut Rng, small: bool) -> Workload {
                 14 | 15 => TOp::PrivateScript { programs: pick_programs(rng) },
                 16 | 17 => TOp::FreshScript { programs: pick_programs(rng) },
                 18 => TOp::CloneRename { tree: rng.usize_below(n_trees) },
-                _ => TOp::EvalImplicit { tree: rng.usize_below(n_trees) },
+                _ => {
+                    if rng.percent(50) {
+                        TOp::EvalImplicit { tree: rng.usize_below(n_trees) }
+                    } else {
+                        TOp::BuildContext { variant: rng.usize_below(6) }
+                    }
+                },
             };
             ops.push(op);
         }
